@@ -3,11 +3,11 @@ FILES = ["adder_sharding/c13_rig_test.go", "adder_sharding/c13_synth_test.go", "
 
 SPEC = {
     "go": [
-        dict(SHARDING, files=FILES, test="TestVerifC13Shard", n_quick=260, n_thorough=6000, shards_quick=4, shards_thorough=12,
+        dict(SHARDING, files=FILES, test="TestVerifC13Shard", n_quick=260, n_thorough=20000, shards_quick=4, shards_thorough=12,
              timeout_quick=600, timeout_thorough=3000),
-        dict(SHARDING, files=FILES, test="TestVerifC13Single", n_quick=200, n_thorough=6000, shards_quick=2, shards_thorough=8,
+        dict(SHARDING, files=FILES, test="TestVerifC13Single", n_quick=200, n_thorough=15000, shards_quick=2, shards_thorough=8,
              timeout_quick=600, timeout_thorough=3000),
-        dict(SHARDING, files=FILES, test="TestVerifC13Files", n_quick=60, n_thorough=1500, shards_quick=4, shards_thorough=12,
+        dict(SHARDING, files=FILES, test="TestVerifC13Files", n_quick=60, n_thorough=3000, shards_quick=4, shards_thorough=12,
              timeout_quick=600, timeout_thorough=3000),
     ],
     "tags": {1: "unixfs-balanced-first-leaf-error-swallowed"},
